@@ -493,7 +493,13 @@ pub fn run(tier: Tier) -> RunOutcome {
                             // stable under the rounding of one scale/unscale round trip
                             probe("c19_huge_rhs_verdict_not_compared");
                         } else if let (Some(a), Some(b)) = (definite_status(&sn), definite_status(r)) {
-                            if a != b
+                            if a != b && !prob.cones.iter().any(|c| !matches!(c, crate::gen::ConeSpec::Zero(_))) {
+                                // as in C08: with equality constraints only the verdict is not a stable
+                                // function of the data (an LP over a subspace is bounded only if q lies
+                                // exactly in range(A')); the rounding of the scale/unscale round trip
+                                // that the property allows decides it either way
+                                probe("c19_equality_only_disagreement_not_judged");
+                            } else if a != b
                                 && eff.n_dropped == 0
                                 && !(crate::props::c08::verdict_is_backed(&prob, &eff, &saved_settings, &sn)
                                     && crate::props::c08::verdict_is_backed(&prob, &eff, &saved_settings, r))
@@ -508,9 +514,24 @@ pub fn run(tier: Tier) -> RunOutcome {
                                     format!("loaded problem: {:?}, original: {:?}", sn.status, r.status),
                                 ));
                             } else if a == 0 {
-                                let tol = (sn.obj_val - sn.obj_val_dual).abs()
+                                let mut tol = (sn.obj_val - sn.obj_val_dual).abs()
                                     + (r.obj_val - r.obj_val_dual).abs()
                                     + 1e-6 * (1.0 + r.obj_val.abs());
+                                // two tolerance-level solutions of the same data may also differ by
+                                // their residuals' weak-duality slack (the computable slack of C05/C08)
+                                if eff.n_dropped == 0
+                                    && sn.x.len() == prob.n
+                                    && r.x.len() == prob.n
+                                    && sn.z.len() == prob.m
+                                    && r.z.len() == prob.m
+                                    && sn.s.len() == prob.m
+                                    && r.s.len() == prob.m
+                                {
+                                    let sl = crate::props::c08::objective_slack(&prob, &eff, &sn, r);
+                                    if sl.is_finite() {
+                                        tol += sl;
+                                    }
+                                }
                                 if (sn.obj_val - r.obj_val).abs() > tol {
                                     out.violations.push(Violation::new(
                                         "C19.loaded_objective_differs",
